@@ -134,13 +134,15 @@ class Ctx:
         return res
 
     # ------------------------------------------------------------------ worker pool
-    def run_jobs(self, jobs, nproc=None, per_job_timeout=20.0, sequential=False):
+    def run_jobs(self, jobs, nproc=None, per_job_timeout=20.0, sequential=False, chunks=None):
         """jobs: list of dicts with unique 'id'.  Returns {id: [events...]} where the last event is
         the 'end' event (synthesised with status 'exit'/'timeout'/'killed' if the worker died)."""
         if not jobs:
             return {}
-        nproc = 1 if sequential else min(nproc or NCPU, max(1, len(jobs) // 8 or 1))
-        chunks = [jobs[i::nproc] for i in range(nproc)] if not sequential else [jobs]
+        if chunks is None:
+            nproc = 1 if sequential else min(nproc or NCPU, max(1, len(jobs) // 8 or 1))
+            chunks = [jobs[i::nproc] for i in range(nproc)] if not sequential else [jobs]
+        chunks = [c for c in chunks if c]
         procs = []
         for ci, ch in enumerate(chunks):
             procs.append(_WorkerRun(self, ci, ch, per_job_timeout))
